@@ -1,4 +1,5 @@
 import OnetVerif.Model.Util
+import OnetVerif.Model.C10Server
 /-! Model for property C10: closing a server under concurrent traffic.
 
 Three transition systems, one per lock of the source, each with unboundedly many threads and
@@ -689,6 +690,43 @@ def step (d : State) (toks : List String) : State × String :=
         (ovStep ov (.done i)).getD ov) ov
       ({ d with srv := some (sv, ov), startedOk := d.startedOk ++ List.replicate n false },
         s!"insts={(ov.insts.filter (·.listed)).length}")
+    | _, _ => (d, "bad-op")
+  | ["srvclose2", n] =>
+    -- n overlapping `Server.Close` calls on the started server.  Whatever the interleaving every
+    -- call gets past the hand-shake with `Start` and exactly one performs it
+    -- (`c10_close_handshake_terminates`); the schedule run here is "one after the other".  The first
+    -- `closeDatabase` removes the file, the others report that it is gone.
+    match d.srv, n.toNat? with
+    | some (sv, ov), some n =>
+      if n < 2 ∨ n > 32 then (d, "bad-op") else
+      let acts : List HsAct := (if sv.started then [.startCall, .startFlag, .startWait] else []) ++
+        List.replicate n .closeCall ++
+        (List.range n).flatMap fun j => [.closeLock j, .handshake j, .closeUnlock j, .closeRest j]
+      let hsf := hsRun true {} acts
+      let returned := (hsf.closers.filter (· == .returned)).length
+      let (sv', res) := serverClose sv
+      let ov' := (ovStep ov .close).getD ov
+      ({ d with srv := some (sv', ov') },
+        s!"returned={returned} ok={match res with | .ok => 1 | .err => 0} insts={(ov'.insts.filter (·.listed)).length} dispatchers={(ov'.insts.filter (·.bound)).length}")
+    | _, _ => (d, "bad-op")
+  | ["lnstress", tr, stops, dials, lis] =>
+    -- a listener on its own: (`Listen` running or not,) `stops` concurrent `Stop` calls and `dials`
+    -- concurrent connection attempts, all running freely; then a late `Listen`.  Every `Stop`
+    -- returns, nobody listens afterwards and nothing is handed out any more
+    -- (`c10_listener_stop_terminates`, `c10_listener_no_accept_after_stop`, `c10_local_listener_stop`);
+    -- the schedule run here is "one `Stop` after the other".
+    match stops.toNat?, dials.toNat? with
+    | some ns, some nd =>
+      if ns = 0 ∨ ns > 16 ∨ nd > 32 ∨ (lis ≠ "0" ∧ lis ≠ "1") ∨ !d.threads.isEmpty ∨ !d.core.conns.isEmpty then (d, "bad-op")
+      else if tr = "tcp" then
+        let acts : List LnAct := (if lis = "1" then [.listen] else []) ++ List.replicate ns .stopCall ++
+          (List.range ns).flatMap fun j => [.stopLock j, .acceptErr, .checkQuit, .quitShake j, .stopFinish j]
+        let l := lnRun {} acts
+        (d, s!"returned={(l.stops.filter (· == .returned)).length} listening={l.listening} late=0 listen-after={if l.closed then "returned" else "listening"}")
+      else if tr = "local" then
+        let l := llRun {} ((if lis = "1" then [LlAct.listen] else []) ++ List.replicate ns .stop)
+        (d, s!"returned={ns} listening={l.listening} late=0 listen-after={if (llStep l .listen).listening then "listening" else "returned"}")
+      else (d, "bad-op")
     | _, _ => (d, "bad-op")
   | ["srvclose"] =>
     match d.srv with
